@@ -82,6 +82,9 @@ CHECKS["C14"] = (True, "exploration", "real node + real api_v1_updates listeners
 CHECKS["C12"] = (True, "exploration", "real node, real api_v1_subs / api_v1_sub_by_id / catch_up_sub under a concurrent writer, attach/resume at seeded moments with seeded delays at hook points; every attached stream recorded at the client side and judged against the stream of the first subscriber; scripted HTTP/2 server streams with seeded anomalies against the real klukai-client SubscriptionStream",
     "Runtime monitor: while a writer commits bursts of 1-1500 changed rows, 2-8 subscriber tasks attach 2-4 times each (from scratch, skip_rows, from=N anywhere in the log, GET by id or POST of the same SQL) with seeded delays inside catch_up_sub, its queue task, and between the matcher's event emission and commit; each attached stream is compared with the primary stream: snapshot == fold of the primary up to the snapshot's change id, first id right after the snapshot / N, ids +1, every change identical to the primary's change of that id, no duplicates, nothing after a gap. The client library is fed scripted streams with a gap, duplicate or backward id and must yield MissedChange exactly there.",
     "§3-C12", "executions are real concurrency: a given exec seed fixes the schedule of requests and delays, not the interleaving; pruned change logs and resume points beyond the newest id are outside")
+CHECKS["C16"] = (True, "exploration", "real node (gossip server, handle_changes, broadcast runtime_loop, handle_sync) + real friend node + scripted foreign peer writing frames on real QUIC streams + UDP sockets as foreign members; oracle over the node's tables, the first message of each sync session and packets reaching foreign members; cluster id switched at run time",
+    "Runtime monitor: uni streams whose frames each declare their own cluster id (other ids, the node's, or truncated before the id) closed by marker frames so that the stream's handling is observable; sync sessions declaring every kind of id; outgoing broadcasts and handle_sync rounds with a member table mixing clusters (foreign members are UDP sockets, some with ring-0 samples); the node's cluster id is switched at run time with all connections open and everything repeated. A row is in the node's table iff its frame declared the node's current cluster, a foreign session gets Rejection(DifferentCluster) and nothing else, and no packet reaches a foreign member.",
+    "§3-C16", "the SWIM exchange itself is not run: members are written into the table directly")
 
 NOT_YET = {
 }
